@@ -355,7 +355,9 @@ def compare_replay(chk, prop, key, expected, res, strict_counts):
         chk.finding("%s:engine:Replay.LoadError" % prop, "probe program failed to load: %s" % res["load_error"],
                     {"source": res["src"]})
         return
-    last = res["outcomes"][-1]
+    # the model's terminal state describes the last run()/result() call; an add_command after it changes nothing about that outcome
+    calls = [o for o, h in zip(res["outcomes"], res["hist"]) if h[0] != "add"]
+    last = calls[-1] if calls else res["outcomes"][-1]
     ok_states = set()
     for (pstate, err, nexec, ndone) in expected:
         if pstate == "returned":
